@@ -68,7 +68,7 @@ type WorkerResult struct {
 	Extra        map[string]int64 `json:"extra"`
 	KnownHits    map[string]int   `json:"known_hits"`
 	OracleEvals  int64            `json:"oracle_evals"`
-	SimSpanNs    int64            `json:"sim_span_ns"`
+	SimSpanNs    float64          `json:"sim_span_ns"`
 	Steps        int64            `json:"steps"`
 	Switches     int64            `json:"switches"`
 	Samples      []Sample         `json:"samples"`
@@ -260,7 +260,7 @@ func WorkerMain() {
 			res.Extra[k] += c
 		}
 		res.OracleEvals += int64(r.OracleEvals)
-		res.SimSpanNs += r.SimSpan
+		res.SimSpanNs += float64(r.SimSpan)
 		res.Steps += int64(r.Steps)
 		res.Switches += int64(r.Switches)
 		if os.Getenv("VERIF_TRACE") == "1" {
